@@ -1,16 +1,31 @@
 """C19 — Structured, layered-mapping and formula containers obey their container laws.
 
-Correspondence stream `c19` (three request kinds, dispatched on "op"):
-  st  random nestings (depth <= 4) of keyed/tuple structure built through the public API of the REAL
-      `Structured` (constructor, or item assignment when the root key is not last), then
-      `_map` (with a logging two-argument function), `_flatten`, tuple-path `__getitem__`, `_simplify`
-      (all flag combinations, twice), `_update`, `_merge` (custom merger), `__setitem__`;
-  lm  random stacks of plain-dict / nested named `LayeredMapping` layers with overlapping keys and a
-      random sequence (<= 20) of `__setitem__`, `__delitem__`, `with_layers` on the REAL object, observing
-      `dict` view / `len` / iteration after every step, `in`/`[]`/`get_with_layer_name` at the end;
-  sf  random term lists and a random sequence (<= 20) of `insert`, `__setitem__`, `__delitem__` (index
-      and slice), `append`, `extend`, `pop`, `reverse` on the REAL `SimpleFormula` (orderings degree/none/sort).
-The same inputs go to the Lean models (`Model.St`, `Model.LMap`, `Model.SF`); outputs must be equal.
+Correspondence stream `c19` (six request kinds, dispatched on "op"):
+  st   random nestings (depth <= 4) of keyed/tuple structure built through the public API of the REAL
+       `Structured` (constructor, or item assignment when the root key is not last), then
+       `_map` (logging two-argument function; one-argument function through the TypeError fallback;
+       `recurse=False`), `_flatten`, tuple-path `__getitem__`, `_simplify` (all flag combinations, twice),
+       `_update`, `_merge` (custom merger), `__setitem__`;
+  so   the CONTAINER PROTOCOL of `Structured` on trees whose leaves are str | int | list | set | dict: a random
+       history (<= 12) of `s[key]` / `s[key] = v` (plain keys None/str/int, valid and invalid identifiers, tuple
+       paths with negative / out-of-range indices, beyond the structure, into leaves), `getattr`/`setattr`,
+       `iter`, `len`, `in`, `==`, `_to_dict(recurse=…)`, the state observed after every step; and `_merge` with the
+       DEFAULT merger (lists / sets / dicts / mixtures);
+  stf  the `StructuredFormula` constructor (and `Formula(**structure)`) on trees of one-term formulas whose nested
+       nodes are plain `Structured` or `StructuredFormula`;
+  lm   random stacks of plain-dict / nested named `LayeredMapping` layers with overlapping keys and a random sequence
+       (<= 20) of `__setitem__`, `__delitem__`, `pop`, `popitem`, `clear`, `setdefault`, `update`, `with_layers` on the
+       REAL object, interleaved with writes made by the OWNERS of the supplied layers (live view), observing `dict` view / `len` / iteration after every step and `named_layers` (a cached property)
+       at random steps; `in`/`[]`/`get_with_layer_name`/`get_layer_name_for_key`/`getattr(m, name)` at the end;
+  os   `OrderedSet` over a small alphabet (duplicates in the input) and a sequence (<= 8) of `|`, `&`, `-`, `^` (also
+       reflected, against sets and plain lists), `<=`/`<`/`>=`/`>`/`==`, `isdisjoint`, `in`, the running set observed
+       after every step;
+  sf   random term lists and a random sequence (<= 20) of `insert`, `__setitem__` (index, slice), `__delitem__` (index,
+       slice, extended slice), `append`, `extend`, `+=`, `pop`, `remove`, `clear`, `reverse`, `f[a:b:c]`, `index`,
+       `count`, `in`, `reversed`, `==` on the REAL `SimpleFormula` (orderings degree/none/sort), plus constructor calls
+       (missing / string / non-Term / `**structure` arguments).
+The same inputs go to the Lean models (`Model.St`, `Model.StOps`, `Model.StF`, `Model.OSet`, `Model.LMap`,
+`Model.LMapX`, `Model.SFm`); outputs must be equal.
 
 The oracle re-states the container laws in Python directly on the implementation's observables
 (independent reference computations on plain dicts/lists; it never looks at the model).
@@ -30,6 +45,7 @@ REQUIRED_THEOREMS = [
     "flatten_map",
     "flatten_map_perm",
     "map_paths_truthful",
+    "map_nonrecursive_is_dict_map",
     "simplify_idempotent",
     "simplify_flatten",
     "simplify_default_is_simpObj",
@@ -37,39 +53,87 @@ REQUIRED_THEOREMS = [
     "merge_is_keywise",
     "merge_tuples_concatenate",
     "merge_fuel_sufficient",
+    "merge_default_leaves",
+    "merge_default_concatenates",
+    "getitem_root_delegation",
+    "path_lookup_walks",
+    "setitem_then_getitem",
+    "setitem_other_paths_unchanged",
+    "setitem_fails_iff",
+    "setitem_is_dict_write",
+    "iter_len_consistent",
+    "root_only_is_its_root",
+    "contains_iff_key",
+    "eq_is_dict_equality",
+    "eq_unfolds",
+    "to_dict_roundtrip",
+    "container_history_invariant",
+    "structured_formula_ctor_leaf_preserving",
     "lm_lookup_topfirst",
     "lm_writes_private",
     "lm_set_get",
     "lm_len_iter_consistent",
     "lm_named_lookup_consistent",
     "lm_with_layers_stack",
+    "lm_named_layers_first_wins",
+    "lm_all_writes_private",
+    "lm_pop_private_only",
+    "lm_clear_private",
+    "lm_live_view",
     "formula_sorted_invariant",
     "formula_degree_sorted",
     "formula_reorder_stable",
     "formula_insert_stable",
     "formula_delete_exact",
+    "formula_slices",
+    "formula_slice_delete_agrees",
+    "formula_clear_remove",
+    "formula_constructor",
+    "oset_constructor",
+    "oset_algebra",
+    "oset_comparisons",
+    "oset_history_nodup",
+    "live_container_tables",
 ]
 TRUSTED = [
-    "modelled, not verified: CPython dict insertion order, `**kwargs` binding of the `root` keyword, tuple/generator "
-    "evaluation order, `sorted` stability, list index conventions, `collections.abc` mixins "
-    "(MutableMapping.__contains__, MutableSequence.append/extend/pop/reverse)",
-    "not modelled: `Structured` subclasses re-preparing items (`_prepare_item`), `_metadata`, `_map(recurse=False)`, "
-    "the default merger of `_merge` (the correspondence passes an explicit merger), `named_layers` caching, "
-    "aliasing between a `LayeredMapping` and older references to its layers (operations act on the outermost object only), "
+    "modelled, not verified: CPython dict insertion order and dict equality, `**kwargs` binding of the `root` keyword, "
+    "tuple/generator evaluation order, `sorted` stability, list/tuple/str index and slice conventions "
+    "(`slice.indices`), `str.isidentifier` (ASCII), the `TypeError` a wrong-arity call raises, `collections.abc` mixins "
+    "(MutableMapping.__contains__/pop/popitem/clear/update/setdefault, MutableSequence.append/extend/pop/remove/clear/"
+    "reverse/__iadd__, Sequence.index/count/__contains__/__reversed__), `functools.cached_property`",
+    "leaf objects of the `so` stream (str, int, list, set, dict) are a five-constructor model of their `[]`, `iter`, `==`; "
+    "set iteration order is not modelled (compared sorted)",
+    "Gen/Containers.lean (ordering method names and default, `Structured.__slots__`, which protocol methods each class "
+    "defines itself) is regenerated from the live package on every run",
+    "not modelled: `_metadata` (carried along, never read), `Structured.__dir__/__repr__/__str__`, assigning "
+    "`_structure` through `__setattr__`, aliasing of `Structured` (the same object stored at two places), structural "
+    "changes made to a NESTED `LayeredMapping` behind the outer one's back (`with_layers(inplace=True)`, renaming: the "
+    "outer `named_layers` cache would be stale; key writes by a layer's owner ARE modelled), `StructuredFormula` items that need "
+    "parsing (`_prepare_item` on non-Formula specs: C01), the deprecated `SimpleFormula._map/_flatten/…` shims, "
     "`Term.__lt__` against non-Term operands",
 ]
 ASSUMPTIONS = [
-    "every Structured has unique keys that do not start with '_' (it stores a dict; the constructor rejects '_' keys)",
-    "leaves are neither tuples nor Structured instances",
+    "every Structured has unique keys that do not start with '_' (it stores a dict; the constructor and `__setitem__` "
+    "reject '_' keys; proved preserved by every container operation: container_history_invariant)",
+    "keys are ASCII strings (`isidentifier` is modelled for ASCII)",
+    "leaves are neither tuples nor Structured instances; the leaves of `_map`/`_flatten`/`_simplify` cases are strings",
+    "terms have distinct factor expressions (what `Term.__init__` produces)",
 ]
 RULE = (
     "st: random trees over keys {root,a,b,c,d}, depth<=4, tuples of length 0..3 (also tuple-in-tuple), root key "
     "last (constructor) or elsewhere (item assignment); merge partners derived from the tree by key drops/additions, "
-    "leaf->wrapped leaf upcasts and occasional tuple/leaf misalignment; lm: 0..4 layers (dict | nested named "
-    "LayeredMapping, depth<=3) over keys k0..k5 with values int|None, ops set/del/with_layers(prepend,inplace,name); "
-    "sf: terms of degree 0..3 over a..f, orderings degree|none|sort, ops with in/out-of-range and negative indices, "
-    "non-Term values. non-trivial = st with a nested node or tuple / lm with >=2 layers sharing a key or any op / "
-    "sf with >=1 op; distinct by canonical JSON"
+    "leaf->wrapped leaf upcasts and occasional tuple/leaf misalignment; so: trees over {root,a..e} with leaves "
+    "str|int|list|set|dict, 2..12 ops, keys None|str (identifiers, '', 'a b', '1a', '_p', 'a-b')|int|tuple paths taken "
+    "from the tree and perturbed (extended, replaced element, negative/out-of-range index), `==` partners = key "
+    "shuffles / variations / unrelated values, merge objects of one leaf kind or mixed; stf: trees of one-term "
+    "formulas, nested nodes plain Structured or StructuredFormula, occasional '_' key; lm: 0..4 layers (dict | nested "
+    "named LayeredMapping, depth<=3) over keys k0..k5 with values int|None, ops set/del/pop/popitem/clear/setdefault/"
+    "update/with_layers(prepend,inplace,name)/owner writes to a supplied layer at a random depth, named_layers read after 40% of the steps; sf: terms of degree 0..3 "
+    "over a..f, orderings degree|none|sort, ops with in/out-of-range and negative indices, None/negative slice bounds, "
+    "steps 1,2,3,-1,-2,0, non-Term values, terms known to be present (factors permuted), 0..2 constructor probes; "
+    "os: 0..8 letters of a..g with repetitions, 1..8 operations against OrderedSets or lists. "
+    "non-trivial = st/stf with a nested node or tuple / so with >=2 ops / lm with >=2 layers or any op / sf with >=1 "
+    "op / os with >=2 input values; distinct by canonical JSON"
 )
 
 # ----------------------------------------------------------------------------- generators
@@ -155,6 +219,188 @@ def gen_st(rng):
     return {"k": "st", "tree": tree, "objs": objs, "upd": upd, "sets": sets}
 
 
+
+# ----------------------------------------------------------------------------- generators: container protocol (`so`)
+
+SO_KEYS = ["root", "a", "b", "c", "d", "e"]
+SO_BADKEYS = ["", "a b", "1a", "_p", "a-b", "_"]
+
+
+class _FreshPy:
+    """leaf objects of the `so` stream: str | int | list[int] | set[int] | dict[str,int]"""
+
+    def __init__(self, kinds):
+        self.n = 0
+        self.kinds = kinds
+
+    def leaf(self, rng):
+        self.n += 1
+        k = rng.choice(self.kinds)
+        if k == "s":
+            return {"l": {"s": "x%d" % self.n if rng.random() < 0.8 else rng.choice(["", "q", "abc"])}}
+        if k == "i":
+            return {"l": {"i": rng.choice([-1, 0, self.n, 7])}}
+        if k == "L":
+            return {"l": {"L": [rng.randrange(5) for _ in range(rng.choice([0, 1, 2, 3]))]}}
+        if k == "S":
+            return {"l": {"S": sorted(set(rng.randrange(6) for _ in range(rng.choice([0, 1, 2, 3]))))}}
+        ks = [x for x in ["p", "q", "r"] if rng.random() < 0.5]
+        rng.shuffle(ks)
+        return {"l": {"D": [[x, rng.randrange(9)] for x in ks]}}
+
+
+def _paths(v, pre=()):
+    """all (path, value) pairs of an encoded value, tuple positions as ints"""
+    out = [(pre, v)]
+    if "t" in v:
+        for i, x in enumerate(v["t"]):
+            out += _paths(x, pre + (i,))
+    elif "n" in v:
+        for k, x in v["n"]:
+            out += _paths(x, pre + (k,))
+    return out
+
+
+def _gen_key(rng, tree, for_set):
+    r = rng.random()
+    if r < 0.45:  # a tuple path
+        ps = _paths(tree)
+        p, at = rng.choice(ps)
+        p = list(p)
+        q = rng.random()
+        if for_set:
+            # assignment wants a prefix that leads to a Structured plus a new/old key
+            if "n" not in at or q < 0.15:
+                pass  # leads to a non-Structured (KeyError) or replaces an existing place
+            else:
+                p.append(rng.choice(SO_KEYS + SO_BADKEYS[:4] + [None, 0]))
+        elif q < 0.25:
+            p.append(rng.choice(["a", "zz", 0, 1, -1, 5, None, "_p"]))
+        elif q < 0.35 and p:
+            j = rng.randrange(len(p))
+            p[j] = rng.choice(["a", "zz", 0, -1, -2, 3, None])
+        if p and isinstance(p[-1], int) and rng.random() < 0.3:
+            p[-1] = p[-1] - rng.choice([1, 2, 3])  # negative / out of range index
+        return {"p": p}
+    if r < 0.8:
+        return rng.choice(SO_KEYS)
+    if r < 0.9:
+        return rng.choice(SO_BADKEYS + ["zz"])
+    return rng.choice([None, None, 0, 1, -1, 2, 5])
+
+
+def gen_so(rng):
+    kinds = rng.choice([["s"], ["s", "i"], ["s", "i", "L", "S", "D"], ["L"], ["i", "L"]])
+    fresh = _FreshPy(kinds)
+    depth = rng.choice([1, 2, 2, 3, 3])
+    tree = gen_node(rng, depth, fresh)
+    ops = []
+    for _ in range(rng.choice([2, 4, 8, 12])):
+        r = rng.random()
+        if r < 0.25:
+            ops.append({"o": "get", "key": _gen_key(rng, tree, False)})
+        elif r < 0.5:
+            ops.append({"o": "set", "key": _gen_key(rng, tree, True), "v": gen_val(rng, rng.choice([0, 1, 2]), fresh)})
+        elif r < 0.57:
+            ops.append({"o": "getattr", "a": rng.choice(SO_KEYS + ["zz", "_zz", "a b"])})
+        elif r < 0.65:
+            ops.append({"o": "setattr", "a": rng.choice(SO_KEYS + ["a b", "_zz", "_metadata", "1a"]),
+                        "v": gen_val(rng, rng.choice([0, 1]), fresh)})
+        elif r < 0.75:
+            ops.append({"o": "iter"})
+        elif r < 0.8:
+            ops.append({"o": "len"})
+        elif r < 0.86:
+            ops.append({"o": "contains", "key": rng.choice(SO_KEYS + ["zz", "_p", None, 0])})
+        elif r < 0.94:
+            q = rng.random()
+            if q < 0.4:
+                other = _shuffled(rng, tree)
+            elif q < 0.7:
+                other = vary(rng, tree, fresh, depth)
+            else:
+                other = gen_val(rng, 2, fresh)
+            ops.append({"o": "eq", "other": other})
+        else:
+            ops.append({"o": "todict", "recurse": rng.random() < 0.6})
+    # objects for `_merge` with the DEFAULT merger: leaves of one mergeable kind, sometimes mixed
+    mk = rng.choice([["L"], ["L"], ["S"], ["D"], ["L", "S"], ["L", "D", "i"], ["s"]])
+    mf = _FreshPy(mk)
+    mt = gen_node(rng, rng.choice([1, 2, 3]), mf)
+    objs = [mt] + [vary(rng, mt, mf, 3) for _ in range(rng.choice([0, 1, 1, 2]))]
+    if rng.random() < 0.15:
+        objs = [gen_val(rng, 1, mf) for _ in range(rng.choice([0, 1, 2, 3]))]
+    return {"k": "so", "tree": tree, "ops": ops, "merge": objs}
+
+
+def _shuffled(rng, v):
+    if "l" in v:
+        return v
+    if "t" in v:
+        return {"t": [_shuffled(rng, x) for x in v["t"]]}
+    items = [[k, _shuffled(rng, x)] for k, x in v["n"]]
+    rng.shuffle(items)
+    return {"n": items}
+
+
+# ----------------------------------------------------------------------------- generators: StructuredFormula constructor (`stf`)
+
+
+class _FreshLabel:
+    def __init__(self):
+        self.n = 0
+
+    def leaf(self, rng):
+        self.n += 1
+        return {"l": "v%d" % self.n}
+
+
+def _count_nodes(v):
+    if "l" in v:
+        return 0
+    if "t" in v:
+        return sum(_count_nodes(x) for x in v["t"])
+    return 1 + sum(_count_nodes(x) for _, x in v["n"])
+
+
+def gen_stf(rng):
+    fresh = _FreshLabel()
+    tree = gen_node(rng, rng.choice([1, 2, 2, 3, 3, 4]), fresh)
+    if rng.random() < 0.04:
+        tree["n"].append(["_bad", fresh.leaf(rng)])
+    # which nested nodes are built as StructuredFormula (True) / plain Structured (False), in DFS order
+    return {"k": "stf", "tree": tree, "bits": [rng.random() < 0.4 for _ in range(_count_nodes(tree))]}
+
+
+# ----------------------------------------------------------------------------- generators: OrderedSet (`os`)
+
+OS_ALPHA = ["a", "b", "c", "d", "e", "f", "g"]
+
+
+def _os_items(rng):
+    return [rng.choice(OS_ALPHA) for _ in range(rng.choice([0, 1, 2, 3, 5, 8]))]
+
+
+def gen_os(rng):
+    ops = []
+    for _ in range(rng.choice([1, 2, 4, 8])):
+        o = rng.choice(["or", "and", "sub", "rsub", "xor", "or", "and", "le", "lt", "ge", "gt", "eq", "isdisjoint", "contains"])
+        op = {"o": o, "xs": _os_items(rng), "isset": rng.random() < 0.55}
+        if o in ("or", "and", "xor") and not op["isset"]:
+            op["refl"] = rng.random() < 0.5  # `lst | a` instead of `a | lst`
+        if o == "contains":
+            op = {"o": o, "x": rng.choice(OS_ALPHA)}
+        if o == "eq" and rng.random() < 0.5:
+            op["same"] = True  # filled in by impl/request from the running state? no: a permutation of the initial items
+        ops.append(op)
+    xs = _os_items(rng)
+    for op in ops:
+        if op.pop("same", False):
+            op["xs"] = list(reversed(xs))
+            op["isset"] = True
+    return {"k": "os", "xs": xs, "ops": ops}
+
+
 LKEYS = ["k0", "k1", "k2", "k3", "k4", "k5"]
 NAMES = [None, None, "", "data", "ctx", "x"]
 
@@ -175,26 +421,69 @@ def gen_layer(rng, depth):
     }
 
 
+def _shape_of(l):
+    """shape of a supplied layer: None for a plain dict, else the list of the shapes of its layers"""
+    if "d" in l:
+        return None
+    return [_shape_of(x) for x in l["layers"] if x is not None]
+
+
+def _random_path(rng, shape):
+    """index path into nested `_layers` lists, ending at a dict layer or (sometimes) at a nested mapping"""
+    path, cur = [], shape
+    while cur:
+        i = rng.randrange(len(cur))
+        path.append(i)
+        cur = cur[i]
+        if cur is not None and rng.random() < 0.3:
+            break
+    return path
+
+
 def gen_lm(rng):
     layers = [gen_layer(rng, 3) if rng.random() > 0.08 else None for _ in range(rng.choice([0, 1, 2, 2, 3, 4]))]
+    shape = [_shape_of(l) for l in layers if l is not None]  # shadow of the outermost object's `_layers`
     ops = []
     for _ in range(rng.choice([0, 2, 5, 10, 20])):
         r = rng.random()
-        if r < 0.45:
-            ops.append({"o": "set", "k": rng.choice(LKEYS), "v": rng.choice([None, 10, 11, 12, 13])})
-        elif r < 0.8:
-            ops.append({"o": "del", "k": rng.choice(LKEYS)})
+        if r < 0.27:
+            op = {"o": "set", "k": rng.choice(LKEYS), "v": rng.choice([None, 10, 11, 12, 13])}
+        elif r < 0.44:
+            op = {"o": "del", "k": rng.choice(LKEYS)}
+        elif r < 0.53:
+            op = {"o": "pop", "k": rng.choice(LKEYS + ["zz"]), "hasd": rng.random() < 0.4, "d": rng.choice([None, 99])}
+        elif r < 0.58:
+            op = {"o": "popitem"}
+        elif r < 0.62:
+            op = {"o": "clear"}
+        elif r < 0.67:
+            op = {"o": "setdefault", "k": rng.choice(LKEYS + ["zz"]), "d": rng.choice([None, 20, 21])}
+        elif r < 0.72:
+            ks = [k for k in LKEYS if rng.random() < 0.3]
+            rng.shuffle(ks)
+            op = {"o": "update", "pairs": [[k, rng.choice([None, 30, 31, 32])] for k in ks]}
+        elif r < 0.82 and shape:
+            # the OWNER of a supplied layer writes it: the mapping is a live view
+            op = {"o": "ext", "path": _random_path(rng, shape), "k": rng.choice(LKEYS), "v": rng.choice([None, 40, 41, 42]),
+                  "del": rng.random() < 0.35}
         else:
-            ops.append(
-                {
-                    "o": "with",
-                    "layers": [gen_layer(rng, 2) if rng.random() > 0.15 else None for _ in range(rng.choice([0, 1, 1, 2]))],
-                    "prepend": rng.random() < 0.6,
-                    "inplace": rng.random() < 0.5,
-                    "name": rng.choice(NAMES),
-                }
-            )
-    return {"k": "lm", "name": rng.choice(NAMES), "layers": layers, "ops": ops, "probe": LKEYS + ["zz"]}
+            op = {
+                "o": "with",
+                "layers": [gen_layer(rng, 2) if rng.random() > 0.15 else None for _ in range(rng.choice([0, 1, 1, 2]))],
+                "prepend": rng.random() < 0.6,
+                "inplace": rng.random() < 0.5,
+                "name": rng.choice(NAMES),
+            }
+            new = [_shape_of(l) for l in op["layers"] if l is not None]
+            if new:
+                if op["inplace"]:
+                    shape = new + shape if op["prepend"] else shape + new
+                else:
+                    shape = new + [shape] if op["prepend"] else [shape] + new
+        op["named"] = rng.random() < 0.4  # read `named_layers` (a cached property) after this step
+        ops.append(op)
+    return {"k": "lm", "name": rng.choice(NAMES), "layers": layers, "ops": ops, "probe": LKEYS + ["zz"],
+            "attrs": ["data", "ctx", "x", "", "zz"], "named0": rng.random() < 0.5}
 
 
 VARS = ["a", "b", "c", "d", "e", "f"]
@@ -217,43 +506,110 @@ def gen_sf(rng):
     def val():
         return gen_term(rng) if rng.random() > 0.07 else None
 
+    def known():
+        """a term that is probably in the formula (possibly with its factors permuted)"""
+        pool = terms + [op["t"] for op in ops if op.get("t")]
+        if not pool or rng.random() < 0.25:
+            return val()
+        t = list(rng.choice(pool))
+        if rng.random() < 0.3:
+            rng.shuffle(t)
+        return t
+
+    def bound():
+        return rng.choice([None, None, -9, -3, -2, -1, 0, 1, 2, 3, 5, 9])
+
+    ordering = rng.choice(["degree", "degree", "degree", "none", "sort"])
+    if rng.random() < 0.3:
+        # `==` right after construction against (a perturbation of) the expected initial state
+        other = [list(t) for t in terms]
+        if ordering != "none":
+            other.sort(key=_deg if ordering == "degree" else _sort_key)
+        if other and rng.random() < 0.6:
+            j = rng.randrange(len(other))
+            other[j] = gen_term(rng) if rng.random() < 0.7 else list(reversed(other[j]))
+        ops.append({"o": "eq", "other": other})
     for _ in range(rng.choice([1, 3, 6, 12, 20])):
         r = rng.random()
         i = rng.choice([-9, -3, -2, -1, 0, 0, 1, 2, 3, 5, 9])
-        if r < 0.3:
+        if r < 0.2:
             ops.append({"o": "insert", "i": i, "t": val()})
-        elif r < 0.5:
+        elif r < 0.34:
             ops.append({"o": "set", "i": i, "t": val()})
-        elif r < 0.65:
+        elif r < 0.43:
             ops.append({"o": "del", "i": i})
-        elif r < 0.7:
+        elif r < 0.47:
             ops.append({"o": "delslice", "a": i, "b": rng.choice([-2, 0, 1, 2, 4, 9])})
-        elif r < 0.8:
+        elif r < 0.53:
             ops.append({"o": "append", "t": val()})
-        elif r < 0.88:
+        elif r < 0.58:
             ops.append({"o": "extend", "ts": [val() for _ in range(rng.choice([0, 1, 2, 3]))]})
-        elif r < 0.95:
+        elif r < 0.63:
             ops.append({"o": "pop", "i": rng.choice([-1, -1, 0, i])})
-        else:
+        elif r < 0.67:
             ops.append({"o": "reverse"})
-    return {"k": "sf", "ordering": rng.choice(["degree", "degree", "degree", "none", "sort"]), "terms": terms, "ops": ops}
+        elif r < 0.71:
+            ops.append({"o": "iadd", "ts": [val() for _ in range(rng.choice([0, 1, 2]))]})
+        elif r < 0.75:
+            op = {"o": "setslice", "a": bound(), "b": bound(), "c": rng.choice([1, 1, 1, 2, -1])}
+            if rng.random() < 0.7:
+                op["ts"] = [val() for _ in range(rng.choice([0, 1, 2]))]
+            else:
+                op["t"] = gen_term(rng)
+            ops.append(op)
+        elif r < 0.8:
+            ops.append({"o": "delslicex", "a": bound(), "b": bound(), "c": rng.choice([1, 1, 2, 3, -1, -1, -2, 0])})
+        elif r < 0.82:
+            ops.append({"o": "clear"})
+        elif r < 0.87:
+            ops.append({"o": "remove", "t": known()})
+        elif r < 0.91:
+            ops.append({"o": "getslice", "a": bound(), "b": bound(), "c": rng.choice([1, 1, 2, -1, -1, -2, 0])})
+        elif r < 0.94:
+            ops.append({"o": rng.choice(["index", "count", "contains"]), "t": known()})
+        elif r < 0.955:
+            ops.append({"o": "reversed"})
+        elif r < 0.965:
+            ops.append({"o": "eqforeign", "x": rng.choice(["int", "str", "none", "tuple"])})
+        else:
+            q = rng.random()
+            pool = terms + [op["t"] for op in ops if op.get("t")]
+            other = [list(t) for t in pool] if q < 0.5 else [gen_term(rng) for _ in range(rng.choice([0, 1, 2]))]
+            if q < 0.25:
+                other.sort(key=_deg)
+            ops.append({"o": "eq", "other": other})
+    ctors = []
+    for _ in range(rng.choice([0, 0, 1, 2])):
+        arg = rng.choice(["terms", "terms", "terms", "missing", "notterms"])
+        c = {"arg": arg, "kw": rng.random() < 0.2}
+        if arg == "terms":
+            c["ts"] = [val() if rng.random() < 0.9 else None for _ in range(rng.choice([0, 1, 2, 4]))]
+            c["as"] = rng.choice(["list", "tuple", "generator"])
+        elif arg == "notterms":
+            c["what"] = rng.choice(["str", "int", "none"])
+        ctors.append(c)
+    return {"k": "sf", "ordering": ordering, "terms": terms, "ops": ops, "ctors": ctors}
+
+
+_STREAMS = ["st", "so", "lm", "sf", "stf", "lm", "so", "sf", "st", "lm", "so", "sf", "os"]
 
 
 def cases(rng, tier):
-    n = {"quick": 500, "thorough": 8000, "search": 300}[tier]
+    n = {"quick": 780, "thorough": 10400, "search": 300}[tier]
+    gens = {"st": gen_st, "so": gen_so, "stf": gen_stf, "os": gen_os, "lm": gen_lm, "sf": gen_sf}
     for i in range(n):
-        r = i % 5
-        if r in (0, 1):
-            yield gen_st(rng)
-        elif r in (2, 3):
-            yield gen_lm(rng)
-        else:
-            yield gen_sf(rng)
+        yield gens[_STREAMS[i % len(_STREAMS)]](rng)
 
 
 def describe(c):
     if c["k"] == "st":
         return f"st,depth={_depth(c['tree'])},objs={len(c['objs'])}"
+    if c["k"] == "stf":
+        return f"stf,depth={_depth(c['tree'])}"
+    if c["k"] == "os":
+        return f"os,ops={len(c['ops'])}"
+    if c["k"] == "so":
+        return f"so,depth={_depth(c['tree'])},ops={len(c['ops']) // 4 * 4}+"
     if c["k"] == "lm":
         return f"lm,layers={len(c['layers'])},ops={min(len(c['ops']), 20) // 5 * 5}+"
     return f"sf,{c['ordering']},ops={len(c['ops']) // 5 * 5}+"
@@ -270,6 +626,12 @@ def _depth(v):
 def nontrivial(c):
     if c["k"] == "st":
         return _depth(c["tree"]) >= 2
+    if c["k"] == "stf":
+        return _depth(c["tree"]) >= 2
+    if c["k"] == "os":
+        return len(c["xs"]) >= 2
+    if c["k"] == "so":
+        return len(c["ops"]) >= 2
     if c["k"] == "lm":
         return len(c["ops"]) > 0 or len([l for l in c["layers"] if l]) >= 2
     return len(c["ops"]) >= 1
@@ -315,6 +677,13 @@ def _mapfn(x, ctx):
     return x + "@" + ".".join(map(str, ctx))
 
 
+def _mapfn_nr(x, ctx):
+    from formulaic.utils.structured import Structured
+
+    d = "S[" + ",".join(x._structure) + "]" if isinstance(x, Structured) else x
+    return d + "@" + ".".join(map(str, ctx))
+
+
 def _merger(*xs):
     if "bad" in xs:
         raise NotImplementedError("bad leaf")
@@ -347,6 +716,8 @@ def impl_st(c):
     out["flat"] = _flat_out(s._flatten())
     out["flat_mapped"] = _flat_out(m._flatten())
     out["paths"] = [_try(lambda p=p: s[tuple(p)]) for _, p in log]
+    out["map1"] = _try(lambda: s._map(lambda x: x + "!"))  # one-argument func: reached through the TypeError fallback
+    out["map_nr"] = _try(lambda: s._map(_mapfn_nr, recurse=False))
     out["unchanged_after_map"] = _enc(s) == c["tree"]
     combos = [(True, True), (True, False), (False, True), (False, False)]
     simp, again_default, again_same = [], [], []
@@ -400,10 +771,284 @@ def impl_st(c):
     return out
 
 
+
+# ----------------------------------------------------------------------------- impl: Structured container protocol
+
+
+def _leaf_py(l):
+    if "s" in l:
+        return l["s"]
+    if "i" in l:
+        return l["i"]
+    if "L" in l:
+        return list(l["L"])
+    if "S" in l:
+        return set(l["S"])
+    return dict((k, v) for k, v in l["D"])
+
+
+def _build_so(v):
+    from formulaic.utils.structured import Structured
+
+    if "l" in v:
+        return _leaf_py(v["l"])
+    if "t" in v:
+        return tuple(_build_so(x) for x in v["t"])
+    pairs = [(k, _build_so(x)) for k, x in v["n"]]
+    keys = [k for k, _ in pairs]
+    if "root" not in keys or keys[-1] == "root":
+        return Structured(**dict(pairs))
+    s = Structured()
+    for k, x in pairs:
+        s._structure[k] = x  # exact insertion order (keys may be non-identifiers after a setattr)
+    return s
+
+
+def _leaf_enc(o):
+    if isinstance(o, str):
+        return {"s": o}
+    if isinstance(o, bool):
+        return {"?": repr(o)}
+    if isinstance(o, int):
+        return {"i": o}
+    if isinstance(o, list):
+        return {"L": list(o)}
+    if isinstance(o, (set, frozenset)):
+        return {"S": sorted(o)}
+    if isinstance(o, dict):
+        return {"D": [[k, x] for k, x in o.items()]}
+    return {"?": repr(o)[:40]}
+
+
+def _enc_so(o):
+    from formulaic.utils.structured import Structured
+
+    if isinstance(o, Structured):
+        return {"n": [[k, _enc_so(x)] for k, x in o._structure.items()]}
+    if isinstance(o, tuple):
+        return {"t": [_enc_so(x) for x in o]}
+    return {"l": _leaf_enc(o)}
+
+
+def _enc_dict(o):
+    """a `_to_dict` result: every Python dict (converted node or dict leaf alike) as {"d": …}"""
+    from formulaic.utils.structured import Structured
+
+    if isinstance(o, Structured):
+        return _enc_so(o)
+    if isinstance(o, dict):
+        return {"d": [[k, _enc_dict(x)] for k, x in o.items()]}
+    if isinstance(o, tuple):
+        return {"t": [_enc_dict(x) for x in o]}
+    return {"l": _leaf_enc(o)}
+
+
+def _pykey(k):
+    if isinstance(k, dict):
+        return tuple(k["p"])
+    return k
+
+
+def _root_is_set(s):
+    from formulaic.utils.structured import Structured
+
+    while isinstance(s, Structured) and set(s._structure) == {"root"}:
+        s = s._structure["root"]
+    return isinstance(s, (set, frozenset))
+
+
+def impl_so(c):
+    from formulaic.utils.structured import Structured
+
+    s = _build_so(c["tree"])
+    if _enc_so(s) != c["tree"]:
+        raise RuntimeError("harness could not build the requested tree")
+    trace = []
+    for op in c["ops"]:
+        o = op["o"]
+        extra = {}
+        try:
+            if o == "get":
+                res = _enc_so(s[_pykey(op["key"])])
+            elif o == "set":
+                key = _pykey(op["key"])
+                s[key] = _build_so(op["v"])
+                res = None
+                if isinstance(key, tuple):
+                    extra["readback"] = _enc_so(s[key])
+            elif o == "getattr":
+                res = _enc_so(getattr(s, op["a"]))
+            elif o == "setattr":
+                setattr(s, op["a"], _build_so(op["v"]))
+                res = None
+            elif o == "iter":
+                res = [_enc_so(x) for x in s]
+                if _root_is_set(s):
+                    res = sorted(res, key=str)
+                    extra["unordered"] = True
+            elif o == "len":
+                res = len(s)
+            elif o == "contains":
+                res = op["key"] in s
+            elif o == "eq":
+                res = s == _build_so(op["other"])
+                extra["eq_copy"] = s == _build_so(_enc_so(s))
+                extra["eq_reversed"] = s == _build_so(_reversed_keys(_enc_so(s)))
+                extra["ne_plain"] = (s == s._to_dict()) is False and (s == None) is False  # noqa: E711
+            else:
+                res = _enc_dict(s._to_dict(recurse=op["recurse"]))
+        except Exception as e:
+            res = {"error": type(e).__name__}
+        trace.append(dict(res=res, state=_enc_so(s), **extra))
+    out = {"trace": trace, "final": _enc_so(s)}
+    objs = [_build_so(o) for o in c["merge"]]
+    try:
+        out["merge"] = _enc_so(Structured._merge(*objs))
+    except Exception as e:
+        out["merge"] = {"error": type(e).__name__}
+    out["merge_inputs_unchanged"] = [_enc_so(o) for o in objs] == c["merge"]
+    return out
+
+
+def _reversed_keys(v):
+    if "l" in v:
+        return v
+    if "t" in v:
+        return {"t": [_reversed_keys(x) for x in v["t"]]}
+    return {"n": [[k, _reversed_keys(x)] for k, x in reversed(v["n"])]}
+
+
+
+# ----------------------------------------------------------------------------- impl: StructuredFormula constructor
+
+
+def _formula_leaf(label):
+    from formulaic import SimpleFormula
+    from formulaic.parser.types import Factor, Term
+
+    return SimpleFormula([Term([Factor(label, eval_method="lookup")])])
+
+
+def _build_stf(v, bits):
+    """nested values of an `stf` case: leaves are one-term formulas, nodes plain Structured or StructuredFormula"""
+    from formulaic import StructuredFormula
+    from formulaic.utils.structured import Structured
+
+    if "l" in v:
+        return _formula_leaf(v["l"])
+    if "t" in v:
+        return tuple(_build_stf(x, bits) for x in v["t"])
+    as_sf = bits.pop(0) if bits else False
+    pairs = [(k, _build_stf(x, bits)) for k, x in v["n"]]
+    if as_sf:
+        return StructuredFormula(**dict(pairs))
+    s = Structured()
+    for k, x in pairs:
+        s._structure[k] = x
+    return s
+
+
+def _enc_stf(o):
+    from formulaic import SimpleFormula
+    from formulaic.utils.structured import Structured
+
+    if isinstance(o, Structured):
+        return {"n": [[k, _enc_stf(x)] for k, x in o._structure.items()]}
+    if isinstance(o, tuple):
+        return {"t": [_enc_stf(x) for x in o]}
+    if isinstance(o, SimpleFormula) and len(o) == 1 and len(o[0].factors) == 1:
+        return {"l": o[0].factors[0].expr}
+    return {"l": "?" + repr(o)[:30]}
+
+
+def _all_sf(o, top=True):
+    from formulaic import StructuredFormula
+    from formulaic.utils.structured import Structured
+
+    if isinstance(o, Structured):
+        return type(o) is StructuredFormula and all(_all_sf(x, False) for x in o._structure.values())
+    if isinstance(o, tuple):
+        return all(_all_sf(x, False) for x in o)
+    return True
+
+
+def impl_stf(c):
+    from formulaic import Formula, StructuredFormula
+
+    bits = list(c["bits"])[1:]  # the first node is the top one
+    pairs = [(k, _build_stf(x, bits)) for k, x in c["tree"]["n"]]
+    kw = dict(pairs)
+    before = [[k, _enc_stf(x)] for k, x in pairs]
+    out = {}
+    try:
+        f = StructuredFormula(**kw)
+        out["ctor"] = _enc_stf(f)
+        out["all_sf"] = _all_sf(f)
+        out["flat"] = [_enc_stf(x) for x in f._flatten()]
+        g = StructuredFormula(**f._structure)
+        out["rebuild_same"] = _enc_stf(g) == out["ctor"]
+        out["stays_simplified"] = _enc_stf(f._simplify(unwrap=False)) == out["ctor"]
+        out["inputs_unchanged"] = [[k, _enc_stf(x)] for k, x in pairs] == before
+    except Exception as e:
+        out["ctor"] = {"error": type(e).__name__}
+    if any(k != "root" for k in kw):
+        try:
+            out["call"] = _enc_stf(Formula(**kw))
+        except Exception as e:
+            out["call"] = {"error": type(e).__name__}
+    return out
+
+
+
+# ----------------------------------------------------------------------------- impl: OrderedSet
+
+
+def impl_os(c):
+    import operator
+
+    from formulaic.parser.types import OrderedSet
+
+    a = OrderedSet(c["xs"])
+    out = {"init": list(a), "len": len(a), "trace": []}
+    binop = {"or": operator.or_, "and": operator.and_, "xor": operator.xor, "le": operator.le, "lt": operator.lt,
+             "ge": operator.ge, "gt": operator.gt, "eq": operator.eq}
+    for op in c["ops"]:
+        res = None
+        try:
+            o = op["o"]
+            if o == "contains":
+                res = op["x"] in a
+            else:
+                b = OrderedSet(op["xs"]) if op["isset"] else list(op["xs"])
+                if o in ("or", "and", "xor"):
+                    r = binop[o](b, a) if op.get("refl") else binop[o](a, b)
+                elif o == "sub":
+                    r = a - b
+                elif o == "rsub":
+                    r = b - a
+                elif o == "isdisjoint":
+                    r = a.isdisjoint(b)
+                else:
+                    r = binop[o](a, b)
+                if isinstance(r, bool):
+                    res = r
+                elif type(r) is OrderedSet:
+                    a = r
+                else:
+                    res = {"error": "not an OrderedSet: " + type(r).__name__}
+        except Exception as e:
+            res = {"error": type(e).__name__}
+        out["trace"].append({"items": list(a), "len": len(a), "res": res})
+    out["final"] = list(a)
+    return out
+
+
 # ----------------------------------------------------------------------------- impl: LayeredMapping
 
 
 def _build_layer(l, registry):
+    """build a supplied layer; returns (object, [the same for its own layers]) — the CALLER's objects, through which
+    the `ext` operations write"""
     from formulaic.utils.layered_mapping import LayeredMapping
 
     if l is None:
@@ -411,12 +1056,13 @@ def _build_layer(l, registry):
     if "d" in l:
         d = dict((k, v) for k, v in l["d"])
         registry.append(d)
-        return d
-    lm = LayeredMapping(*[_build_layer(x, registry) for x in l["layers"]], name=l["name"])
+        return (d, [])
+    kids = [x for x in (_build_layer(y, registry) for y in l["layers"]) if x is not None]
+    lm = LayeredMapping(*[k[0] for k in kids], name=l["name"])
     for k, v in l["m"]:
         lm[k] = v
     registry.append(lm)
-    return lm
+    return (lm, kids)
 
 
 def _snap(o):
@@ -427,7 +1073,7 @@ def _snap(o):
     return {"d": [[k, v] for k, v in o.items()]}
 
 
-def _lm_obs(m, err):
+def _lm_obs(m, err, res=None, named=False):
     try:
         keys = list(m)
         view = []
@@ -436,7 +1082,10 @@ def _lm_obs(m, err):
                 view.append([k, m[k]])
             except KeyError:
                 view.append([k, "<KeyError>"])
-        return {"err": err, "view": view, "len": len(m), "name": m.name}
+        out = {"err": err, "res": res, "view": view, "len": len(m), "name": m.name}
+        if named:
+            out["named"] = [[n, _snap(l)] for n, l in m.named_layers.items()]
+        return out
     except Exception as e:
         return {"err": err, "broken": type(e).__name__}
 
@@ -445,27 +1094,56 @@ def impl_lm(c):
     from formulaic.utils.layered_mapping import LayeredMapping
 
     registry = []
-    m = LayeredMapping(*[_build_layer(l, registry) for l in c["layers"]], name=c["name"])
+    tree = [x for x in (_build_layer(l, registry) for l in c["layers"]) if x is not None]  # owners' objects
+    m = LayeredMapping(*[x[0] for x in tree], name=c["name"])
     before = [_snap(o) for o in registry]
-    out = {"init": _lm_obs(m, None), "trace": []}
+    out = {"init": _lm_obs(m, None, named=c.get("named0", False)), "trace": []}
     supplied_ok = True
     for op in c["ops"]:
-        err = None
+        err, res = None, None
         try:
-            if op["o"] == "set":
+            o = op["o"]
+            if o == "ext":
+                # not an operation of the mapping: the owner of one of its layers writes that layer
+                supplied_ok = supplied_ok and [_snap(x) for x in registry] == before
+                obj, kids = m, tree
+                for i in op["path"]:
+                    obj, kids = kids[i]
+                store = obj._mutations if isinstance(obj, LayeredMapping) else obj
+                if op["del"]:
+                    store.pop(op["k"], None)
+                else:
+                    store[op["k"]] = op["v"]
+                before = [_snap(x) for x in registry]
+            elif o == "set":
                 m[op["k"]] = op["v"]
-            elif op["o"] == "del":
+            elif o == "del":
                 del m[op["k"]]
+            elif o == "pop":
+                res = {"v": m.pop(op["k"], op["d"]) if op["hasd"] else m.pop(op["k"])}
+            elif o == "popitem":
+                res = {"item": list(m.popitem())}
+            elif o == "clear":
+                m.clear()
+            elif o == "setdefault":
+                res = {"v": m.setdefault(op["k"], op["d"])}
+            elif o == "update":
+                m.update([(k, v) for k, v in op["pairs"]])
             else:
                 n0 = len(registry)
-                new = [_build_layer(l, registry) for l in op["layers"]]
+                new = [x for x in (_build_layer(l, registry) for l in op["layers"]) if x is not None]
                 before += [_snap(o) for o in registry[n0:]]
-                m = m.with_layers(*new, prepend=op["prepend"], inplace=op["inplace"], name=op["name"])
+                m2 = m.with_layers(*[x[0] for x in new], prepend=op["prepend"], inplace=op["inplace"], name=op["name"])
+                if new:
+                    if op["inplace"]:
+                        tree = new + tree if op["prepend"] else tree + new
+                    else:
+                        tree = new + [(m, tree)] if op["prepend"] else [(m, tree)] + new
+                m = m2
         except Exception as e:
             err = type(e).__name__
-        out["trace"].append(_lm_obs(m, err))
-    supplied_ok = [_snap(o) for o in registry] == before
-    out["supplied_unchanged"] = supplied_ok
+        out["trace"].append(_lm_obs(m, err, res, named=op.get("named", False)))
+    out["supplied_unchanged"] = supplied_ok and [_snap(o) for o in registry] == before
     probe = []
     for k in c["probe"]:
         try:
@@ -473,8 +1151,17 @@ def impl_lm(c):
         except KeyError:
             g = "<KeyError>"
         v, n = m.get_with_layer_name(k)
-        probe.append({"k": k, "in": k in m, "get": g, "named": [v, n]})
+        probe.append({"k": k, "in": k in m, "get": g, "named": [v, n], "layer_name": m.get_layer_name_for_key(k)})
     out["probe"] = probe
+    attrs = []
+    for a in c.get("attrs", []):
+        try:
+            attrs.append(_snap(getattr(m, a)))
+        except Exception as e:
+            attrs.append(type(e).__name__)
+    out["attrs"] = attrs
+    out["named_final"] = [[n, _snap(l)] for n, l in m.named_layers.items()]
+    out["self_snap"] = _snap(m)
     out["items_consistent"] = (
         list(m.keys()) == list(m) and [list(kv) for kv in m.items()] == out["trace"][-1]["view"]
         if out["trace"] and "view" in out["trace"][-1]
@@ -504,7 +1191,7 @@ def impl_sf(c):
     f = SimpleFormula([_term(t) for t in c["terms"]], _ordering=c["ordering"])
     out = {"init": _terms_out(f), "trace": []}
     for op in c["ops"]:
-        err = None
+        err, res = None, None
         try:
             o = op["o"]
             if o == "insert":
@@ -521,17 +1208,69 @@ def impl_sf(c):
                 f.extend([_term(t) for t in op["ts"]])
             elif o == "pop":
                 f.pop(op["i"])
+            elif o == "iadd":
+                g = f
+                f += [_term(t) for t in op["ts"]]
+                if g is not f:
+                    raise RuntimeError("+= rebinds the formula")
+            elif o == "setslice":
+                f[slice(op["a"], op["b"], None if op["c"] == 1 else op["c"])] = (
+                    [_term(t) for t in op["ts"]] if "ts" in op else _term(op["t"])
+                )
+            elif o == "delslicex":
+                del f[slice(op["a"], op["b"], op["c"])]
+            elif o == "clear":
+                f.clear()
+            elif o == "remove":
+                f.remove(_term(op["t"]))
+            elif o == "getslice":
+                g = f[slice(op["a"], op["b"], op["c"])]
+                if type(g) is not type(f) or g.ordering is not f.ordering:
+                    raise RuntimeError("a slice is not a formula with the same ordering")
+                res = {"terms": _terms_out(g)}
+            elif o == "index":
+                res = {"n": f.index(_term(op["t"]))}
+            elif o == "count":
+                res = {"n": f.count(_term(op["t"]))}
+            elif o == "contains":
+                res = {"b": _term(op["t"]) in f}
+            elif o == "reversed":
+                res = {"terms": _terms_out(reversed(f))}
+            elif o == "eq":
+                other = [_term(t) for t in op["other"]]
+                a, b = f == other, f == SimpleFormula(other, _ordering="none")
+                if a is not b:
+                    raise RuntimeError("== against a list and against a formula differ")
+                res = {"b": a}
+            elif o == "eqforeign":
+                x = {"int": 5, "str": "a + b", "none": None, "tuple": tuple(f)}[op["x"]]
+                res = {"b": (f == x) is True}
             else:
                 f.reverse()
         except Exception as e:
             err = type(e).__name__
-        out["trace"].append({"terms": _terms_out(f), "err": err})
+        out["trace"].append({"terms": _terms_out(f), "err": err, "res": res})
     out["final"] = _terms_out(f)
+    out["ctors"] = []
+    for ct in c.get("ctors", []):
+        kw = {"a": [_term([{"x": "a", "m": "lookup"}])]} if ct["kw"] else {}
+        try:
+            if ct["arg"] == "missing":
+                g = SimpleFormula(_ordering=c["ordering"], **kw)
+            elif ct["arg"] == "notterms":
+                g = SimpleFormula({"str": "a + b", "int": 5, "none": None}[ct["what"]], _ordering=c["ordering"], **kw)
+            else:
+                ts = [_term(t) for t in ct["ts"]]
+                root = {"list": ts, "tuple": tuple(ts), "generator": (t for t in ts)}[ct["as"]]
+                g = SimpleFormula(root, _ordering=c["ordering"], **kw)
+            out["ctors"].append(_terms_out(g))
+        except Exception as e:
+            out["ctors"].append(type(e).__name__)
     return out
 
 
 def impl(c):
-    return {"st": impl_st, "lm": impl_lm, "sf": impl_sf}[c["k"]](c)
+    return {"st": impl_st, "so": impl_so, "stf": impl_stf, "os": impl_os, "lm": impl_lm, "sf": impl_sf}[c["k"]](c)
 
 
 # ----------------------------------------------------------------------------- request / agree
@@ -540,9 +1279,15 @@ def impl(c):
 def request(c, o):
     if c["k"] == "st":
         return dict(op="st", tree=c["tree"], objs=c["objs"], upd=c["upd"], sets=c["sets"])
+    if c["k"] == "so":
+        return dict(op="so", tree=c["tree"], ops=c["ops"], merge=c["merge"])
+    if c["k"] == "stf":
+        return dict(op="stf", tree=c["tree"])
+    if c["k"] == "os":
+        return dict(op="os", xs=c["xs"], ops=c["ops"])
     if c["k"] == "lm":
-        return dict(op="lm", name=c["name"], layers=c["layers"], ops=c["ops"], probe=c["probe"])
-    return dict(op="sf", ordering=c["ordering"], terms=c["terms"], ops=c["ops"])
+        return dict(op="lm", name=c["name"], layers=c["layers"], ops=c["ops"], probe=c["probe"], attrs=c.get("attrs", []))
+    return dict(op="sf", ordering=c["ordering"], terms=c["terms"], ops=c["ops"], ctors=c.get("ctors", []))
 
 
 def _cmp(o, m, fields):
@@ -563,7 +1308,7 @@ def agree(c, o, m):
         why = _cmp(
             o,
             m,
-            ["map", "log", "flat", "flat_mapped", "paths", "simp", "simp_default_again", "simp_same_again",
+            ["map", "log", "flat", "flat_mapped", "paths", "map1", "map_nr", "simp", "simp_default_again", "simp_same_again",
              "simp_inplace_unwrap", "update", "merge", "sets"],
         )
         if why:
@@ -575,14 +1320,39 @@ def agree(c, o, m):
         if got != want:
             return f"field `simp_inplace`: impl {str(got)[:160]} vs model {str(want)[:160]}"
         return None
+    if c["k"] == "stf":
+        return _cmp(o, m, ["ctor"] + (["call"] if "call" in o else []))
+    if c["k"] == "os":
+        return _cmp(o, m, ["init", "len", "trace", "final"])
+    if c["k"] == "so":
+        if len(o["trace"]) != len(m.get("trace", [])):
+            return "trace lengths differ"
+        for i, (a, b) in enumerate(zip(o["trace"], m["trace"])):
+            ra, rb = a["res"], b["res"]
+            if a.get("unordered") and isinstance(rb, list):
+                rb = sorted(rb, key=str)
+            if ra != rb:
+                return f"op {i} {c['ops'][i]['o']}: impl returns {str(ra)[:160]} vs model {str(rb)[:160]}"
+            if a["state"] != b["state"]:
+                return f"op {i} {c['ops'][i]['o']}: state impl {str(a['state'])[:160]} vs model {str(b['state'])[:160]}"
+        if m.get("final") != o["final"]:
+            return "final state: impl vs model `run` differ"
+        return _cmp(o, m, ["merge"])
     if c["k"] == "lm":
-        why = _cmp(o, m, ["init", "trace", "probe"])
+        steps = [(o["init"], m.get("init"))] + list(zip(o["trace"], m.get("trace", [])))
+        if len(o["trace"]) != len(m.get("trace", [])):
+            return "trace lengths differ"
+        for i, (a, b) in enumerate(steps):
+            for f in a:  # `named` only where the harness read it
+                if a[f] != (b or {}).get(f):
+                    return f"step {i - 1} field `{f}`: impl {str(a[f])[:160]} vs model {str((b or {}).get(f))[:160]}"
+        why = _cmp(o, m, ["probe", "attrs"])
         if why:
             return why
         if m.get("final_is_run") is not True:
-            return "model: fold of `step` and `run` differ"
+            return "model: `trace` and `run` differ"
         return None
-    why = _cmp(o, m, ["init", "trace", "final"])
+    why = _cmp(o, m, ["init", "trace", "final", "ctors"])
     return why
 
 
@@ -596,6 +1366,18 @@ def _plain(v, f=None, ctx=()):
     if "t" in v:
         return ("tup", tuple(_plain(x, f, ctx + (i,)) for i, x in enumerate(v["t"])))
     return ("node", frozenset((k, _plain(x, f, ctx + (k,))) for k, x in v["n"]))
+
+
+def _plain_nr(tree):
+    """reference for `_map(_mapfn_nr, recurse=False)`"""
+
+    def ap(v, ctx):
+        if "t" in v:
+            return ("tup", tuple(ap(x, ctx + (i,)) for i, x in enumerate(v["t"])))
+        d = v["l"] if "l" in v else "S[" + ",".join(k for k, _ in v["n"]) + "]"
+        return ("leaf", d + "@" + ".".join(map(str, ctx)))
+
+    return ("node", frozenset((k, ap(x, (k,))) for k, x in tree["n"]))
 
 
 def _shape(v):
@@ -672,6 +1454,10 @@ def oracle_st(c, o):
         return f"leaves of the mapped structure {o['flat_mapped']} are not the images of the leaves {want}"
     if _root_last(tree) and o["flat_mapped"] != want:
         return f"flatten(map f s) = {o['flat_mapped']} differs from map f (flatten s) = {want}"
+    if "error" in o["map1"] or _plain(o["map1"]) != _plain(tree, lambda x, c: x + "!"):
+        return "_map with a one-argument function is not the structure with every leaf replaced by func(leaf)"
+    if "error" in o["map_nr"] or _plain(o["map_nr"]) != _plain_nr(tree):
+        return "_map(recurse=False) did not apply func once to every top-level object (tuples element-wise)"
     for (x, p), got in zip(o["log"], o["paths"]):
         if got != {"l": x}:
             return f"context {p} handed to func for leaf {x} does not address that leaf (lookup gives {got})"
@@ -720,6 +1506,374 @@ def oracle_st(c, o):
     return None
 
 
+
+# --- oracle: Structured container protocol (reference computations on the encoded values)
+
+
+def _cv(v):
+    """order-insensitive canonical form of an encoded value (dicts of Structured and dict leaves
+    as frozensets, sets already sorted)"""
+    if "l" in v:
+        l = v["l"]
+        if "D" in l:
+            return ("leaf", "D", frozenset((k, x) for k, x in l["D"]))
+        return ("leaf", json_dumps(l))
+    if "t" in v:
+        return ("tup", tuple(_cv(x) for x in v["t"]))
+    return ("node", frozenset((k, _cv(x)) for k, x in v["n"]))
+
+
+def json_dumps(x):
+    import json
+
+    return json.dumps(x, sort_keys=True)
+
+
+def _ref_walk(v, path):
+    """reference tuple-path lookup on an encoded value: value | exception class name"""
+    for e in path:
+        if "n" in v and isinstance(e, str) and any(k == e for k, _ in v["n"]):
+            v = dict((k, x) for k, x in v["n"])[e]
+        elif "t" in v and isinstance(e, int) and not isinstance(e, bool):
+            if not -len(v["t"]) <= e < len(v["t"]):
+                return "IndexError"
+            v = v["t"][e]
+        else:
+            return "KeyError"
+    return v
+
+
+def _ref_assign(v, path, val):
+    """encoded value with the place `path` (resolved as by _ref_walk) replaced/added"""
+    if not path:
+        return val
+    e = path[0]
+    if "n" in v:
+        items = [[k, x] for k, x in v["n"]]
+        for kv in items:
+            if kv[0] == e:
+                kv[1] = _ref_assign(kv[1], path[1:], val)
+                return {"n": items}
+        return {"n": items + [[e, val]]} if len(path) == 1 else None
+    t = list(v["t"])
+    t[e] = _ref_assign(t[e], path[1:], val)
+    return {"t": t}
+
+
+def _ref_getitem(v, k):
+    """reference `obj[k]` for a non-tuple key on an encoded value: value | exception class name"""
+    isint = isinstance(k, int) and not isinstance(k, bool)
+    if "n" in v:
+        d = dict((kk, x) for kk, x in v["n"])
+        if list(d) == ["root"]:
+            return _ref_getitem(d["root"], k)  # a structure with nothing but a root stands for its root
+        if k in (None, "root"):
+            return d.get("root", "KeyError")
+        if isinstance(k, str) and not k.startswith("_") and k in d:
+            return d[k]
+        return "KeyError"
+    if "t" in v:
+        if not isint:
+            return "TypeError"
+        return v["t"][k] if -len(v["t"]) <= k < len(v["t"]) else "IndexError"
+    l = v["l"]
+    if "s" in l or "L" in l:
+        seq = l["s"] if "s" in l else l["L"]
+        if not isint:
+            return "TypeError"
+        if not -len(seq) <= k < len(seq):
+            return "IndexError"
+        return {"l": {"s": seq[k]}} if "s" in l else {"l": {"i": seq[k]}}
+    if "D" in l:
+        d = dict((kk, x) for kk, x in l["D"])
+        return {"l": {"i": d[k]}} if k in d else "KeyError"
+    return "TypeError"
+
+
+def _ref_iter(v):
+    """reference iteration of an encoded Structured"""
+    keys = [k for k, _ in v["n"]]
+    d = dict((k, x) for k, x in v["n"])
+    if keys == ["root"]:
+        r = d["root"]
+        if "t" in r:
+            return r["t"]
+        if "n" in r:
+            return _ref_iter(r)
+        l = r["l"]
+        if "s" in l:
+            return [{"l": {"s": ch}} for ch in l["s"]]
+        if "L" in l:
+            return [{"l": {"i": x}} for x in l["L"]]
+        if "S" in l:
+            return [{"l": {"i": x}} for x in l["S"]]
+        if "D" in l:
+            return [{"l": {"s": k}} for k, _ in l["D"]]
+    return ([d["root"]] if "root" in d else []) + [x for k, x in v["n"] if k != "root"]
+
+
+def _undict(v):
+    if "d" in v:
+        return {"n": [[k, _undict(x)] for k, x in v["d"]]}
+    if "t" in v:
+        return {"t": [_undict(x) for x in v["t"]]}
+    if "n" in v:
+        return {"n": [[k, _dleaf(x)] for k, x in v["n"]]}
+    return v
+
+
+def _dleaf(v):
+    """a state value in which dict LEAVES are written like converted nodes (what `_to_dict` cannot tell apart)"""
+    if "l" in v:
+        if "D" in v["l"]:
+            return {"n": [[k, {"l": {"i": x}}] for k, x in v["l"]["D"]]}
+        return v
+    if "t" in v:
+        return {"t": [_dleaf(x) for x in v["t"]]}
+    return {"n": [[k, _dleaf(x)] for k, x in v["n"]]}
+
+
+def _dshallow(v):
+    """a stored value as `_to_dict(recurse=False)` shows it: nested Structured instances stay, tuples are kept"""
+    if "n" in v:
+        return v
+    if "t" in v:
+        return {"t": [_dshallow(x) for x in v["t"]]}
+    if "D" in v["l"]:
+        return {"d": [[k, {"l": {"i": x}}] for k, x in v["l"]["D"]]}
+    return v
+
+
+def _has_n(v):
+    if "n" in v:
+        return True
+    if "t" in v:
+        return any(_has_n(x) for x in v["t"])
+    if "d" in v:
+        return any(_has_n(x) for _, x in v["d"])
+    return False
+
+
+def _leaf_merge(ls):
+    if all("L" in l for l in ls):
+        return {"L": [x for l in ls for x in l["L"]]}
+    if all("S" in l for l in ls):
+        return {"S": sorted(set(x for l in ls for x in l["S"]))}
+    if all("D" in l for l in ls):
+        d = {}
+        for l in ls:
+            d.update((k, x) for k, x in l["D"])
+        return {"D": [[k, x] for k, x in d.items()]}
+    raise _Mis("NotImplementedError")
+
+
+def _ref_merge_so(objs, top):
+    """`_merge` with the default merger as a key-wise dictionary merge; canonical (`_cv`) result"""
+    if not objs:
+        return ("node", frozenset())
+    tups = ["t" in o for o in objs]
+    if any(tups) and not all(tups):
+        raise _Mis("ValueError")
+    if all(tups):
+        cat = ("tup", tuple(_cv(x) for o in objs for x in o["t"]))
+        return ("node", frozenset([("root", cat)])) if top else cat
+    if all("l" in o for o in objs):
+        return _cv({"l": _leaf_merge([o["l"] for o in objs])})
+    dicts = [dict((k, x) for k, x in o["n"]) if "n" in o else {"root": o} for o in objs]
+    keys = list(dict.fromkeys(k for d in dicts for k in d))
+    errs, out = [], []
+    for k in keys:
+        vals = [d[k] for d in dicts if k in d]
+        if len(vals) == 1:
+            out.append((k, _cv(vals[0])))
+        else:
+            try:
+                out.append((k, _ref_merge_so(vals, False)))
+            except _Mis as e:
+                errs += list(e.args)
+    if errs:
+        raise _Mis(*errs)
+    return ("node", frozenset(out))
+
+
+def oracle_so(c, o):
+    prev = c["tree"]
+    for op, st in zip(c["ops"], o["trace"]):
+        kind, res, new = op["o"], st["res"], st["state"]
+        failed = isinstance(res, dict) and "error" in res
+        if kind not in ("set", "setattr") or failed:
+            if new != prev:
+                return f"{kind} ({'failed' if failed else 'read-only'}) changed the structure: {prev} -> {new}"
+        if kind == "get" and isinstance(op["key"], dict):
+            want = _ref_walk(prev, op["key"]["p"])
+            got = res["error"] if failed else res
+            if got != want:
+                return f"s[{tuple(op['key']['p'])}] gives {got}, walking the structure gives {want}"
+        if kind == "set" and not failed:
+            key = op["key"]
+            path = key["p"] if isinstance(key, dict) else [key]
+            want = _ref_assign(prev, path, op["v"])
+            if want is None or _cv(new) != _cv(want):
+                return f"s[{path}] = v changed more/less than the addressed place: {prev} -> {new}"
+            if isinstance(key, dict) and st.get("readback") != op["v"]:
+                return f"s[{tuple(path)}] after s[{tuple(path)}] = v returns {st.get('readback')}, assigned {op['v']}"
+        if kind == "set" and not isinstance(op["key"], dict):
+            k = op["key"]
+            valid = isinstance(k, str) and k.isidentifier() and not k.startswith("_")
+            if failed and valid:
+                return f"s[{k!r}] = v raised {res['error']} for a valid key"
+            if not valid and (not failed or res["error"] != "KeyError"):
+                return f"s[{k!r}] = v must raise KeyError (keys are identifiers that do not start with '_'), got {res}"
+        if kind == "get" and not isinstance(op["key"], dict):
+            want = _ref_getitem(prev, op["key"])
+            if (res["error"] if failed else res) != want:
+                return f"s[{op['key']!r}] gives {res}, the structure (root-only structures stand for their root) holds {want}"
+        if kind == "setattr" and not failed and not op["a"].startswith("_"):
+            want = _ref_assign(prev, [op["a"]], op["v"])
+            if _cv(new) != _cv(want):
+                return f"setattr {op['a']} changed more/less than that key"
+        if kind == "getattr":
+            d = dict((k, x) for k, x in prev["n"])
+            a = op["a"]
+            want = d[a] if (a in d and not a.startswith("_")) else "AttributeError"
+            if (res["error"] if failed else res) != want:
+                return f"s.{a} gives {res}, the structure holds {want}"
+        if kind == "iter":
+            want = _ref_iter(prev)
+            if st.get("unordered"):
+                want = sorted(want, key=str)
+            if res != want:
+                return f"iteration yields {res}, root-first insertion order is {want}"
+        if kind == "len":
+            if res != len(_ref_iter(prev)):
+                return f"len() = {res} but iteration yields {len(_ref_iter(prev))} items"
+        if kind == "contains":
+            want = isinstance(op["key"], str) and any(k == op["key"] for k, _ in prev["n"])
+            if res != want:
+                return f"`{op['key']!r} in s` is {res}"
+        if kind == "eq":
+            if failed:
+                return f"== raised {res['error']}"
+            want = "n" in op["other"] and _cv(op["other"]) == _cv(prev)
+            if res != want:
+                return f"s == other is {res}; as dictionaries they are {'equal' if want else 'different'}"
+            if not (st["eq_copy"] and st["eq_reversed"] and st["ne_plain"]):
+                return "== is not reflexive / depends on key order / accepts a non-Structured"
+        if kind == "todict":
+            if failed:
+                return f"_to_dict raised {res['error']}"
+            back = _undict(res)
+            want = _dleaf(prev) if op["recurse"] else {"n": [[k, _dleaf(x)] for k, x in prev["n"]]}
+            if op["recurse"]:
+                if _has_n(res):
+                    return "_to_dict() left a Structured instance inside the dictionary"
+                if back != want:
+                    return f"_to_dict() = {res} is not the structure {prev} as nested dictionaries"
+            else:
+                if res != {"d": [[k, _dshallow(x)] for k, x in prev["n"]]}:
+                    return f"_to_dict(recurse=False) = {res} is not the top-level dictionary of {prev}"
+        prev = new
+    if o["final"] != prev:
+        return "final state differs from the last observed state"
+    if not o["merge_inputs_unchanged"]:
+        return "_merge mutated its arguments"
+    try:
+        want = _ref_merge_so(c["merge"], True)
+        if "error" in o["merge"]:
+            return f"_merge (default merger) raised {o['merge']['error']} on mergeable structures"
+        if _cv(o["merge"]) != want:
+            return "_merge with the default merger is not the key-wise merge (lists concatenate, sets unite, dicts merge)"
+    except _Mis as e:
+        if "error" not in o["merge"]:
+            return f"_merge returned a value although a sub-merge must fail ({e.args})"
+        if o["merge"]["error"] not in e.args:
+            return f"_merge raised {o['merge']['error']}, expected one of {e.args}"
+    return None
+
+
+def oracle_stf(c, o):
+    tree = c["tree"]
+    bad = any(k.startswith("_") for k, _ in tree["n"])
+    if "error" in o["ctor"]:
+        return None if bad and o["ctor"]["error"] == "ValueError" else f"StructuredFormula(...) raised {o['ctor']['error']}"
+    if bad:
+        return "StructuredFormula accepted a key that starts with '_'"
+    if not o["all_sf"]:
+        return "a nested Structured was not converted to a StructuredFormula"
+    if sorted(x["l"] for x in o["flat"]) != sorted(_flat(tree)):
+        return f"the constructor's in-place simplification changed the leaves: {o['flat']} vs {_flat(tree)}"
+    if _root_last(tree) and [x["l"] for x in o["flat"]] != _flat(tree):
+        return f"the constructor re-ordered the leaves: {o['flat']} vs {_flat(tree)}"
+    if not o["rebuild_same"]:
+        return "re-constructing a StructuredFormula from its own structure changes it (simplification is not idempotent)"
+    if not o["stays_simplified"]:
+        return "a freshly constructed StructuredFormula is not simplified: _simplify(unwrap=False) still changes it"
+    if not o["inputs_unchanged"]:
+        return "the constructor mutated the objects it was given"
+    if "call" in o:
+        if "error" in o["call"]:
+            return f"Formula(**structure) raised {o['call']['error']}"
+        if sorted(_flat(o["call"])) != sorted(_flat(tree)):
+            return "Formula(**structure) lost or invented leaves"
+    return None
+
+
+def _uniq(xs):
+    return list(dict.fromkeys(xs))
+
+
+def oracle_os(c, o):
+    if o["init"] != _uniq(c["xs"]) or o["len"] != len(set(c["xs"])):
+        return f"OrderedSet({c['xs']}) iterates as {o['init']} with len {o['len']}"
+    prev = o["init"]
+    for op, st in zip(c["ops"], o["trace"]):
+        kind, new, res = op["o"], st["items"], st["res"]
+        if isinstance(res, dict) and kind not in ("le", "lt", "ge", "gt"):
+            return f"{kind} raised / returned {res}"
+        if len(set(new)) != len(new) or st["len"] != len(new):
+            return f"after {kind} the set iterates as {new} with len {st['len']} (duplicates / inconsistent length)"
+        if kind == "contains":
+            if res != (op["x"] in prev) or new != prev:
+                return f"`{op['x']} in s` is {res} for {prev}"
+        else:
+            other = _uniq(op["xs"])
+            if kind == "or":
+                want = _uniq(prev + op["xs"])
+            elif kind == "and":
+                want = [x for x in other if x in prev]
+            elif kind == "sub":
+                want = [x for x in prev if x not in other]
+            elif kind == "rsub":
+                want = [x for x in other if x not in prev]
+            elif kind == "xor":
+                want = [x for x in prev if x not in other] + [x for x in other if x not in prev]
+            else:
+                want = prev
+            if kind in ("or", "sub", "rsub", "xor"):
+                if new != want:
+                    return f"{prev} {kind} {op['xs']} iterates as {new}, insertion order gives {want}"
+            elif kind == "and":
+                if set(new) != set(want):
+                    return f"{prev} & {op['xs']} = {new}"
+            elif new != prev:
+                return f"{kind} changed the set"
+            if kind == "isdisjoint" and res != (not set(prev) & set(other)):
+                return f"isdisjoint is {res}"
+            if kind in ("le", "lt", "ge", "gt", "eq"):
+                if not op["isset"]:
+                    if (kind == "eq" and res is not False) or (kind != "eq" and res != {"error": "TypeError"}):
+                        return f"comparison `{kind}` with a list gives {res}"
+                else:
+                    p, q = set(prev), set(other)
+                    want_b = {"le": p <= q, "lt": p < q, "ge": p >= q, "gt": p > q, "eq": p == q}[kind]
+                    if res != want_b:
+                        return f"{prev} {kind} {other} is {res}, as sets it is {want_b}"
+        prev = new
+    if o["final"] != prev:
+        return "final state differs from the last observed state"
+    return None
+
+
 def _ref_layer(l):
     """the plain dict a supplied layer stands for (iteration order = dict order)"""
     if "d" in l:
@@ -743,37 +1897,130 @@ def _ref_stack(muts, layers):
     return d
 
 
+def _ref_resolve(node, n):
+    """which layer a name stands for: the mapping itself, else its first direct child of that name,
+    else the first child (top first) inside which the name resolves"""
+    if "d" in node:
+        return None
+    if node["name"] == n:
+        return node
+    kids = [l for l in node["layers"] if l is not None and "d" not in l]
+    for l in kids:
+        if l["name"] == n:
+            return l
+    for l in kids:
+        r = _ref_resolve(l, n)
+        if r is not None:
+            return r
+    return None
+
+
+def _ref_names(node):
+    if node is None or "d" in node:
+        return set()
+    out = {node["name"]} if node["name"] else set()
+    for l in node["layers"]:
+        out |= _ref_names(l)
+    return out
+
+
+def _strip(node):
+    """reference node in the form `_snap` reports (no None layers)"""
+    if "d" in node:
+        return node
+    return {"name": node["name"], "m": node["m"], "layers": [_strip(l) for l in node["layers"] if l is not None]}
+
+
 def oracle_lm(c, o):
     if not o["supplied_unchanged"]:
         return "a supplied layer was mutated"
-    muts, layers = {}, [l for l in c["layers"] if l is not None]
+    muts, layers, name = {}, copy.deepcopy([l for l in c["layers"] if l is not None]), c["name"]
     steps = [(None, o["init"])] + list(zip(c["ops"], o["trace"]))
     for op, obs in steps:
         if "broken" in obs:
             return f"iteration/len/lookup raised {obs['broken']}"
         if op is not None:
-            if op["o"] == "set":
+            before = _ref_stack(muts, layers)
+            kind, err, res = op["o"], obs["err"], obs.get("res")
+            if kind == "set":
                 muts[op["k"]] = op["v"]
-                if obs["err"]:
-                    return f"__setitem__ raised {obs['err']}"
-            elif op["o"] == "del":
+                if err:
+                    return f"__setitem__ raised {err}"
+            elif kind == "del":
                 if op["k"] in muts:
                     del muts[op["k"]]
-                    if obs["err"]:
-                        return f"__delitem__ of a key of the private layer raised {obs['err']}"
-                elif obs["err"] != "KeyError":
+                    if err:
+                        return f"__delitem__ of a key of the private layer raised {err}"
+                elif err != "KeyError":
                     return "__delitem__ of a key that is not in the private layer must raise KeyError"
+            elif kind == "pop":
+                k = op["k"]
+                if k in muts:
+                    if err or res != {"v": before[k]}:
+                        return f"pop({k}) of a privately written key gives {res}/{err}, the mapping held {before[k]}"
+                    del muts[k]
+                elif k in before:
+                    if err != "KeyError":
+                        return f"pop({k}) of a key that lives only in a supplied layer must raise KeyError (writes are confined to the private layer), got {res}/{err}"
+                elif op["hasd"]:
+                    if err or res != {"v": op["d"]}:
+                        return f"pop({k}, default) of a missing key gives {res}/{err}"
+                elif err != "KeyError":
+                    return f"pop({k}) of a missing key must raise KeyError"
+            elif kind == "popitem":
+                first = next(iter(before), None)
+                if first is not None and first in muts:
+                    if err or res != {"item": [first, before[first]]}:
+                        return f"popitem() gives {res}/{err}, first item is {[first, before[first]]}"
+                    del muts[first]
+                elif err != "KeyError":
+                    return f"popitem() must raise KeyError when the first key is not privately written / the mapping is empty, got {res}/{err}"
+            elif kind == "clear":
+                if err:
+                    return f"clear() raised {err}"
+                muts = {}
+            elif kind == "setdefault":
+                k = op["k"]
+                if err:
+                    return f"setdefault raised {err}"
+                if k in before:
+                    if res != {"v": before[k]}:
+                        return f"setdefault({k}) returns {res}, the mapping holds {before[k]}"
+                else:
+                    muts[k] = op["d"]
+                    if res != {"v": op["d"]}:
+                        return f"setdefault({k}, d) returns {res}"
+            elif kind == "update":
+                if err:
+                    return f"update raised {err}"
+                muts.update((k, v) for k, v in op["pairs"])
+            elif kind == "ext":
+                node = {"layers": layers}
+                for i in op["path"]:
+                    node = [l for l in node["layers"] if l is not None][i]
+                store = node["d"] if "d" in node else node["m"]
+                hit = [kv for kv in store if kv[0] == op["k"]]
+                if op["del"]:
+                    store[:] = [kv for kv in store if kv[0] != op["k"]]
+                elif hit:
+                    hit[0][1] = op["v"]
+                else:
+                    store.append([op["k"], op["v"]])
+                before = _ref_stack(muts, layers)  # the mapping is a live view: it must show the owner's write
             else:
-                new = [l for l in op["layers"] if l is not None]
-                if obs["err"]:
-                    return f"with_layers raised {obs['err']}"
+                new = copy.deepcopy([l for l in op["layers"] if l is not None])
+                if err:
+                    return f"with_layers raised {err}"
                 if new:
                     if op["inplace"]:
                         layers = new + layers if op["prepend"] else layers + new
                     else:
-                        me = {"name": None, "m": [[k, v] for k, v in muts.items()], "layers": layers}
+                        me = {"name": name, "m": [[k, v] for k, v in muts.items()], "layers": layers}
                         layers = new + [me] if op["prepend"] else [me] + new
                         muts = {}
+                    name = op["name"]
+            if err and obs["view"] != [[k, v] for k, v in before.items()]:
+                return f"{kind} raised {err} but changed the mapping"
         want = _ref_stack(muts, layers)
         keys = [k for k, _ in obs["view"]]
         if len(set(keys)) != len(keys):
@@ -786,6 +2033,23 @@ def oracle_lm(c, o):
             return f"mapping {obs['view']} is not the top-first merge {want} of its layers"
         if keys != list(want):
             return f"iteration order {keys} is not top-first first-occurrence order {list(want)}"
+        if obs["name"] != name:
+            return f"name is {obs['name']}, expected {name}"
+        me = {"name": name, "m": [[k, v] for k, v in muts.items()], "layers": layers}
+        if "named" in obs:
+            why = _check_named(me, obs["named"])
+            if why:
+                return why
+    why = _check_named(me, o["named_final"])
+    if why:
+        return why
+    if o["self_snap"] != _strip(me):
+        return f"the mapping's private layer / layer stack is {o['self_snap']}, the history gives {_strip(me)}"
+    for a, got in zip(c.get("attrs", []), o["attrs"]):
+        r = _ref_resolve(me, a) if a else None
+        want_a = _strip(r) if r is not None else "AttributeError"
+        if got != want_a:
+            return f"attribute `{a}` gives {got}, the first layer of that name is {want_a}"
     for p in o["probe"]:
         k = p["k"]
         if p["in"] != (k in want):
@@ -796,8 +2060,20 @@ def oracle_lm(c, o):
             return f"get_with_layer_name({k}) returns value {p['named'][0]}, lookup gives {want[k]}"
         if k not in want and p["named"] != [None, None]:
             return f"get_with_layer_name({k}) of a missing key returns {p['named']}"
+        if p["layer_name"] != p["named"][1]:
+            return f"get_layer_name_for_key({k}) = {p['layer_name']} but get_with_layer_name reports {p['named'][1]}"
     if not o["items_consistent"]:
         return "keys()/items() disagree with iteration and lookup"
+    return None
+
+
+def _check_named(me, named):
+    names = [n for n, _ in named]
+    if len(set(names)) != len(names) or set(names) != _ref_names(me):
+        return f"named_layers has names {names}, the named layers of the stack are {sorted(_ref_names(me))}"
+    for n, snap in named:
+        if snap != _strip(_ref_resolve(me, n)):
+            return f"named_layers[{n}] is {snap}, the first layer of that name is {_strip(_ref_resolve(me, n))}"
     return None
 
 
@@ -841,9 +2117,13 @@ def _norm_term(t):
     return sorted(t, key=lambda f: f["x"])
 
 
+def _tkey(t):
+    """`Term.__eq__`: the sorted factor expressions"""
+    return None if t is None else sorted(f["x"] for f in t)
+
+
 def oracle_sf(c, o):
     mode = c["ordering"]
-    deg = mode == "degree"
 
     def sorted_ok(ts):
         if mode == "sort":
@@ -864,42 +2144,116 @@ def oracle_sf(c, o):
     if not stable(prev, c["terms"]) or (not ordered and prev != c["terms"]):
         return "constructor did not keep the given terms (in the given order among ties)"
     for op, st in zip(c["ops"], o["trace"]):
-        new = st["terms"]
+        new, kind, err, res = st["terms"], op["o"], st["err"], st.get("res")
+        if err == "RuntimeError":
+            return f"{kind}: the harness noticed a broken sequence protocol"
         if ordered and not sorted_ok(new):
-            return f"after {op['o']} the terms are {[_sort_key(t) for t in new]} (ordering invariant broken)"
-        if op["o"] in ("insert", "set", "del", "delslice", "append", "pop"):
+            return f"after {kind} the terms are {[_sort_key(t) for t in new]} (ordering invariant broken)"
+        if err is not None and new != prev and kind not in ("extend", "iadd", "reverse"):
+            return f"failed {kind} ({err}) changed the formula"
+        if kind in ("insert", "set", "del", "delslice", "append", "pop"):
             raw = list(prev)
-            err = _apply_raw(raw, op)
-            if err != st["err"]:
-                return f"{op} raised {st['err']}, a list raises {err}"
-            if err is not None:
-                if new != prev:
-                    return f"failed {op['o']} changed the formula"
-            elif ordered and op["o"] in ("insert", "set", "append"):
-                if not stable(new, raw):
-                    return f"{op['o']} did not keep the terms / insertion order among ties: {new} from {raw}"
-            elif new != raw:
-                return f"{op['o']} gives {new}, the sequence operation gives {raw}"
-        elif op["o"] == "extend":
+            want_err = _apply_raw(raw, op)
+            if want_err != err:
+                return f"{op} raised {err}, a list raises {want_err}"
+            if err is None:
+                if ordered and kind in ("insert", "set", "append"):
+                    if not stable(new, raw):
+                        return f"{kind} did not keep the terms / insertion order among ties: {new} from {raw}"
+                elif new != raw:
+                    return f"{kind} gives {new}, the sequence operation gives {raw}"
+        elif kind in ("extend", "iadd"):
             k = next((i for i, t in enumerate(op["ts"]) if t is None), len(op["ts"]))
             raw = list(prev) + op["ts"][:k]
-            if (st["err"] is None) != (k == len(op["ts"])):
-                return f"extend raised {st['err']}"
+            if (err is None) != (k == len(op["ts"])):
+                return f"{kind} raised {err}"
             if (ordered and not stable(new, raw)) or (not ordered and new != raw):
-                return f"extend did not append in order: {new} from {raw}"
-        else:  # reverse: a composition of item assignments; only the ordering invariant is demanded
-            if not ordered and new != list(reversed(prev)):
-                return "reverse() did not reverse an unordered formula"
+                return f"{kind} did not append in order: {new} from {raw}"
+        elif kind == "setslice":
+            if "ts" in op and any(t is None for t in op["ts"]) and err is None:
+                return "slice assignment accepted a value that is not a Term"
+            if err is None:  # (the code as it is never gets here) a slice assignment that succeeds must be the list one
+                raw = list(prev)
+                raw[slice(op["a"], op["b"], None if op["c"] == 1 else op["c"])] = op.get("ts", [])
+                if (ordered and not stable(new, raw)) or (not ordered and new != raw):
+                    return f"slice assignment gives {new}, the sequence operation gives {raw}"
+        elif kind == "delslicex":
+            if (op["c"] == 0) != (err == "ValueError") or (err not in (None, "ValueError")):
+                return f"del f[{op['a']}:{op['b']}:{op['c']}] raised {err}"
+            if err is None:
+                raw = list(prev)
+                del raw[slice(op["a"], op["b"], op["c"])]
+                if new != raw:
+                    return f"slice deletion gives {new}, the sequence operation gives {raw}"
+        elif kind == "clear":
+            if err or new != []:
+                return f"clear() left {new} / raised {err}"
+        elif kind == "remove":
+            pos = next((i for i, t in enumerate(prev) if _tkey(t) == _tkey(op["t"])), None)
+            if (pos is None) != (err == "ValueError") or err not in (None, "ValueError"):
+                return f"remove raised {err}, the term is {'absent' if pos is None else 'at %d' % pos}"
+            if pos is not None and new != prev[:pos] + prev[pos + 1 :]:
+                return f"remove gives {new}, removing the first equal term gives {prev[:pos] + prev[pos + 1:]}"
+        else:  # read-only operations and reverse
+            if kind != "reverse" and new != prev:
+                return f"{kind} changed the formula"
+            if kind == "reverse":
+                # a composition of item assignments; only the ordering invariant is demanded
+                if not ordered and new != list(reversed(prev)):
+                    return "reverse() did not reverse an unordered formula"
+            elif kind == "getslice":
+                if (op["c"] == 0) != (err == "ValueError") or err not in (None, "ValueError"):
+                    return f"f[{op['a']}:{op['b']}:{op['c']}] raised {err}"
+                if err is None:
+                    raw = list(prev)[slice(op["a"], op["b"], op["c"])]
+                    got = res["terms"]
+                    if ordered and not sorted_ok(got):
+                        return f"the slice {got} of a formula is not ordered"
+                    if (ordered and not stable(got, raw)) or (not ordered and got != raw):
+                        return f"f[{op['a']}:{op['b']}:{op['c']}] = {got}, the sequence slice is {raw}"
+            elif kind == "reversed":
+                if err or res["terms"] != list(reversed(prev)):
+                    return f"reversed(f) yields {res}"
+            elif kind == "eqforeign":
+                if err or res != {"b": False}:
+                    return f"a formula compares equal to a {op['x']} ({res}/{err})"
+            elif kind == "eq":
+                want = len(prev) == len(op["other"]) and all(_tkey(a) == _tkey(b) for a, b in zip(prev, op["other"]))
+                if err or res != {"b": want}:
+                    return f"f == other is {res}/{err}, term by term it is {want}"
+            else:
+                hits = [i for i, t in enumerate(prev) if _tkey(t) == _tkey(op["t"])]
+                if kind == "index":
+                    if (not hits) != (err == "ValueError") or (hits and res != {"n": hits[0]}):
+                        return f"index gives {res}/{err}, equal terms are at {hits}"
+                elif kind == "count":
+                    if err or res != {"n": len(hits)}:
+                        return f"count gives {res}/{err}, equal terms are at {hits}"
+                elif err or res != {"b": bool(hits)}:
+                    return f"`t in f` gives {res}/{err}, equal terms are at {hits}"
         prev = new
     if o["final"] != prev:
         return "final state differs from the last observed state"
+    for ct, got in zip(c.get("ctors", []), o["ctors"]):
+        bad = ct["kw"] or ct["arg"] == "notterms" or (ct["arg"] == "terms" and any(t is None for t in ct["ts"]))
+        if bad:
+            if got != "FormulaInvalidError":
+                return f"SimpleFormula({ct}) must be refused (FormulaInvalidError), got {got}"
+            continue
+        if isinstance(got, str):
+            return f"SimpleFormula({ct}) raised {got}"
+        given = ct.get("ts", [])
+        if ordered and not sorted_ok(got):
+            return f"constructor left the terms unsorted: {got}"
+        if not stable(got, given) or (not ordered and got != given):
+            return "constructor did not keep the given terms (in the given order among ties)"
     return None
 
 
 def oracle(c, o):
     if "harness_exception" in o:
         return "harness could not run the implementation: " + o["harness_exception"]
-    return {"st": oracle_st, "lm": oracle_lm, "sf": oracle_sf}[c["k"]](c, o)
+    return {"st": oracle_st, "so": oracle_so, "stf": oracle_stf, "os": oracle_os, "lm": oracle_lm, "sf": oracle_sf}[c["k"]](c, o)
 
 
 def classify(c, o, why):
@@ -907,17 +2261,28 @@ def classify(c, o, why):
 
 
 LEVEL_TEXT = (
-    "Proof: Lean theorems (Props/C19.lean) about executable models of Structured, LayeredMapping and SimpleFormula, "
-    "for ALL trees, ALL layer stacks and ALL operation sequences: _map calls func exactly on the _flatten list (with "
-    "truthful contexts) and returns the same dictionary shape; _simplify is idempotent and preserves the flatten list; "
-    "_update/_merge are key-wise dictionary merges (tuples concatenate); a LayeredMapping looks up, iterates and counts "
-    "as the top-first concatenation of its layers, writes touch only the private layer; a formula satisfies the invariant "
-    "of its ordering method (NONE/DEGREE/SORT) after every operation sequence, and the DEGREE sort is stable. The models are tied to the code by a differential "
-    "correspondence on every run."
+    "Proof: 55 Lean theorems (Props/C19.lean) about executable models of Structured, StructuredFormula, OrderedSet, "
+    "LayeredMapping and SimpleFormula, for ALL trees, ALL layer stacks and ALL operation sequences: _map calls func exactly on the "
+    "_flatten list (with truthful contexts) and returns the same dictionary shape (also recurse=False); _simplify is "
+    "idempotent and preserves the flatten list, and so does the StructuredFormula constructor; _update/_merge are "
+    "key-wise dictionary merges (tuples concatenate; the default merger concatenates lists, unites sets, merges dicts, "
+    "refuses mixtures); as a container a Structured delegates plain-key lookup and iteration to a lone root, walks "
+    "tuple paths, returns after `s[path] = v` exactly v under that path and leaves every other path as it was, "
+    "validates keys, has len = number of iterated items (root first, then insertion order), `in` = key membership, "
+    "`==` = dictionary equality, _to_dict = the same tree in plain dicts, and keeps unique non-underscore keys over any "
+    "history; a LayeredMapping looks up, iterates and counts as the top-first concatenation of its layers, named_layers "
+    "maps each name to the first layer bearing it, and EVERY write (also pop/popitem/clear/setdefault/update) touches "
+    "only the private layer while writes by a layer's owner show through (live view); a formula satisfies the invariant of its ordering method (NONE/DEGREE/SORT) after every "
+    "sequence of MutableSequence operations (insert, item/slice assignment and deletion, append, extend, +=, pop, "
+    "remove, clear, reverse, slicing, searching), the DEGREE sort is stable, deletions are exact; an OrderedSet keeps "
+    "distinct values in first-occurrence order through its whole set algebra and compares as a set. The models are tied "
+    "to the code by a differential correspondence on every run."
 )
 LEVEL_NOTE = (
     "Trusted: Lean kernel + propext/Classical.choice/Quot.sound; the hand models validated by correspondence on "
-    "generated nestings/stacks/operation sequences; CPython dict/list/sorted semantics and the collections.abc mixins are "
-    "modelled, not verified; subclasses of Structured, _metadata, named_layers caching, aliasing of layers "
-    "are not modelled."
+    "generated nestings/stacks/operation sequences (structured.py and layered_mapping.py are executed completely except "
+    "__dir__/__repr__/__str__); CPython dict/list/sorted/slice semantics and the collections.abc mixins are modelled, not "
+    "verified; _metadata, aliasing of layers/sub-structures, formula specs that need parsing are not modelled. Observed, "
+    "not a defect of the property: slice assignment to a SimpleFormula always raises (the value list fails the Term "
+    "validation), `s['root']` on a root-only Structured is delegated to the root object."
 )
